@@ -1,26 +1,30 @@
 import ESV.Cli.Lemmas
 import ESV.Cli.Accept
+import ESV.Cli.Pinned
 /-
-C15 — The compile CLI prints what the decompile CLI (and the docs) expect.  Property statements only; the model is
-ESV/Cli/Model.lean (cli/compile.py build_ops/build_routines_json, cli/decompile.py read_ops/read_routines/
-parse_pos_mark_arg/check_settings, docs/cli_api_usage.rst as `DocShape`), lemmas in ESV/Cli/Lemmas.lean.
+C15 — The compile CLI prints what the decompile CLI (and the docs) expect.  Property statements only; the model of the
+CURRENT code (after the `fix:` commits e79af4f, c9fbb9f, 463a62a, 61b451d) is ESV/Cli/Model.lean (cli/compile.py
+build_ops/build_routines_json with the position table, cli/decompile.py read_ops/read_routines/parse_pos_mark_arg/
+check_settings, docs/cli_api_usage.rst as `DocShape`), lemmas in ESV/Cli/Lemmas.lean and ESV/Cli/Accept.lean.
+ESV/Cli/Pinned.lean holds the OLD behaviour (`…Pinned`), only as the subject of the `_counterexample` theorems.
 
 Vocabulary.  `jumpOf o` is the jump parameter of an op (index from OPS_WITH_JUMP_TO_MEM_OFFSET, regenerated table);
 `posOf offs t` the 1-based position, counted across all routines, of the op with offset `t`;
 `Closed c`: every jump parameter is an offset of the set; `Positional c`: every jump parameter equals the position of
-the op it denotes (what the documentation and the decompile command expect); `renum c`: the same routines/ops with
-the offsets replaced by the positions (what the decompile command builds: a running counter from 1);
-`remap c` / `buildJsonFixed`: the PROPOSED repair (jump parameters written as positions); `canon c = renum (remap c)`.
+the op it denotes (what the documentation and the decompile command expect); `remap c`: jump parameters replaced by
+positions (the position table of build_routines_json); `renum c`: the same routines/ops with the offsets replaced by the
+positions (the running counter of read_ops); `canon c = renum (remap c)` = what the decompile command works on.
 -/
 namespace ESV.C15
 open ESV ESV.Cli ESV.Lit
 
 /-- `c'` is `c` renumbered: the same routine table (as far as the JSON keeps it), the same routine lengths, and position
 by position the same opcode and the same parameters, except that the jump parameter of an op may be another number —
-it denotes the op at the same position. -/
+it denotes the op at the same position; every coroutine keeps its name. -/
 structure Renumbering (c c' : RoutineSet) : Prop where
   infos : c'.infos = c.infos.map normInfo
   shape : c'.ops.map List.length = c.ops.map List.length
+  coros : ∀ (k : Nat) (i : RoutineInfo), c.infos[k]? = some i → i.kind = .coroutine → c'.coros[k]? = c.coros[k]?
   ops : ∀ (k : Nat) (o : Op), c.flat[k]? = some o → ∃ o', c'.flat[k]? = some o' ∧ o'.name = o.name ∧
       blank o' = (blank o).map normParam ∧ (jumpOf o').isSome = (jumpOf o).isSome ∧
       (jumpOf o').bind (posOf c'.offsets) = (jumpOf o).bind (posOf c.offsets)
@@ -31,8 +35,6 @@ structure Renumbering (c c' : RoutineSet) : Prop where
 def DocOk : List RoutineInfo → List (Option String) → List (List Op) → Prop
   | i :: is, n :: ns, o :: os =>
     i.kind ≠ .invalid ∧ (i.kind = .coroutine → n.isSome) ∧
-    -- a target: an id other than −1 or a name  (defect: `def 1 for actor(-1)` prints "target_id": null)
-    ((i.kind = .actor ∨ i.kind = .object ∨ i.kind = .performer) → i.linkedTo ≠ -1 ∨ i.linkedToName.isSome) ∧
     (∀ x ∈ o, ∀ p ∈ x.params, ∀ v, p = .fixed v → isNumberLit v.toList = true) ∧
     DocOk is ns os
   | _, _, _ => True
@@ -117,7 +119,7 @@ theorem routinesShape_routinesJ (ints : Bool) (is : List RoutineInfo) (ns : List
       cases os with
       | nil => simp [routinesJ] at hj; subst hj; rfl
       | cons o os =>
-        obtain ⟨h1, h2, h3, h4, h5⟩ := h
+        obtain ⟨h1, h2, h4, h5⟩ := h
         simp only [routinesJ, consR] at hj
         cases hr : routineJ i nm o with
         | error e => simp [hr] at hj
@@ -131,17 +133,8 @@ theorem routinesShape_routinesJ (ints : Bool) (is : List RoutineInfo) (ns : List
             refine ⟨?_, ih ns os h5 js' hrs⟩
             have ho := opsShape_opsJ ints o h4
             obtain ⟨k, l, n⟩ := i
-            have ht : (k = .actor ∨ k = .object ∨ k = .performer) → targetShape (targetJ ⟨k, l, n⟩) = true := by
-              intro hk
-              unfold targetJ
-              by_cases hl : l ≠ -1
-              · simp [hl, targetShape]
-              · simp only [hl, ↓reduceIte]
-                rcases h3 hk with h | h
-                · exact absurd h hl
-                · cases n with
-                  | none => simp at h
-                  | some _ => rfl
+            have ht : targetShape (targetJ ⟨k, l, n⟩) = true := by
+              unfold targetJ; cases n <;> rfl
             cases k with
             | invalid => exact absurd rfl h1
             | coroutine =>
@@ -163,36 +156,72 @@ theorem routinesShape_routinesJ (ints : Bool) (is : List RoutineInfo) (ns : List
               simp [routineJ] at hr; subst hr
               simp [routineShapeG, look, Dict.get?, opsJ, ho, ht]
 
-/-- **The JSON printed by the compile command has the documented structure** (even with all position coordinates
-written as strings) — for every routine set whose routines have a known type, whose coroutines have their name, whose actor/object/performer routines have a target other than
-the bare id −1, and whose fixed-point values are decimal numbers (and documented settings). -/
+theorem remapOp_params_mem (offs : List Int) (o : Op) (p : Param) (h : p ∈ (remapOp offs o).params) :
+    p ∈ o.params ∨ ∃ q, p = .int q := by
+  unfold remapOp at h
+  split at h
+  · exact Or.inl h
+  · split at h
+    · split at h
+      · simp only at h
+        rcases List.mem_or_eq_of_mem_set h with h | rfl
+        · exact Or.inl h
+        · exact Or.inr ⟨_, rfl⟩
+      · exact Or.inl h
+    · exact Or.inl h
+
+theorem docOk_remap (offs : List Int) (is : List RoutineInfo) (ns : List (Option String)) (os : List (List Op))
+    (h : DocOk is ns os) : DocOk is ns (os.map fun r => r.map (remapOp offs)) := by
+  induction is generalizing ns os with
+  | nil => cases ns <;> cases os <;> simp [DocOk]
+  | cons i is ih =>
+    cases ns with
+    | nil => cases os <;> simp [DocOk]
+    | cons nm ns =>
+      cases os with
+      | nil => simp [DocOk]
+      | cons o os =>
+        obtain ⟨h1, h2, h4, h5⟩ := h
+        refine ⟨h1, h2, ?_, ih ns os h5⟩
+        intro x hx p hp v hv
+        simp only [List.mem_map] at hx
+        obtain ⟨y, hy, rfl⟩ := hx
+        rcases remapOp_params_mem offs y p hp with hm | ⟨q, hq⟩
+        · exact h4 y hy p hm v hv
+        · subst hq; cases hv
+
+/-- **The JSON printed by the compile command has the documented structure** (with all position coordinates written as
+strings) — for every routine set whose routines have a known type, whose coroutines have their name and whose
+fixed-point values are decimal numbers (and documented settings). -/
 theorem cli_docshape (s : J) (c : RoutineSet) (hs : settingsShape s = true) (h : DocOk c.infos c.coros c.ops)
     (j : J) (hj : buildJson s c = .ok j) : DocShape j = true ∧ DocShapeStr j = true := by
-  unfold buildJson at hj
-  cases hr : routinesJ c.infos c.coros c.ops with
+  unfold buildJson buildJsonRaw at hj
+  have h' : DocOk (remap c).infos (remap c).coros (remap c).ops := docOk_remap c.offsets _ _ _ h
+  cases hr : routinesJ (remap c).infos (remap c).coros (remap c).ops with
   | error e => simp [hr] at hj
   | ok js =>
     simp [hr] at hj
     subst hj
-    simp [DocShape, DocShapeStr, DocShapeG, look, Dict.get?, hs, routinesShape_routinesJ _ _ _ _ h js hr]
+    simp [DocShape, DocShapeStr, DocShapeG, look, Dict.get?, hs, routinesShape_routinesJ _ _ _ _ h' js hr]
 
-/-- The clause about targets is needed: `def 0 for actor(-1) {}` is accepted by the compiler, and the compile command
-prints `"target_id": null` for it, which is neither of the documented forms. -/
+/-- REPAIRED (c9fbb9f).  `def 0 for actor(-1) {}` is accepted by the compiler; the pinned compile command printed
+`"target_id": null` for it, which is neither of the documented forms; the current one prints the id. -/
 theorem cli_target_null_counterexample :
-    ∃ j, buildJson (.obj []) ⟨[⟨.actor, -1, none⟩], [[]], [none]⟩ = .ok j ∧
+    (∃ j, buildJsonPinned (.obj []) ⟨[⟨.actor, -1, none⟩], [[]], [none]⟩ = .ok j ∧
       j = .obj [("settings", .obj []), ("routines", .arr [.obj [("type", .str "ACTOR"), ("target_id", .null), ("ops", .arr [])]])] ∧
-      routineShapeG true (.obj [("type", .str "ACTOR"), ("target_id", .null), ("ops", .arr [])]) = false :=
-  ⟨_, rfl, rfl, by decide⟩
+      routineShapeG true (.obj [("type", .str "ACTOR"), ("target_id", .null), ("ops", .arr [])]) = false) ∧
+    (∃ j, buildJson (.obj []) ⟨[⟨.actor, -1, none⟩], [[]], [none]⟩ = .ok j ∧
+      j = .obj [("settings", .obj []), ("routines", .arr [.obj [("type", .str "ACTOR"), ("target_id", .int (-1)), ("ops", .arr [])]])]) :=
+  ⟨⟨_, rfl, rfl, by decide⟩, ⟨_, rfl, rfl⟩⟩
 
 /-! ## acceptance of documented documents -/
 
 /-- **The decompile command's reader accepts every documented routine type and argument type**: check_settings and
-read_routines raise nothing on any document with the documented structure whose position coordinates are strings — all
-five routine types, integer or string targets, all six argument types, any number of routines, ops and arguments,
-additional members anywhere.  (The decompiler proper runs after this and is not modelled; for COROUTINE routines it then
-fails, `cli_coroutine_counterexample`; integer coordinates are refused, `cli_posmark_int_counterexample`.) -/
-theorem cli_accepts_documented (doc : J) (h : DocShapeStr doc = true) : ∃ rs, readRaw doc = .ok rs :=
-  readRaw_total doc h
+read_routines raise nothing on any document with the documented structure — all five routine types, integer or string
+targets, all six argument types, position coordinates as integers or whole/half-tile strings, any number of routines, ops
+and arguments, additional members anywhere.  (The decompiler proper runs after this and is not modelled.) -/
+theorem cli_accepts_documented (doc : J) (h : DocShape doc = true) : ∃ rs, readRaw doc = .ok rs :=
+  readRaw_total true doc h
 
 /-- the string-coordinate structure is within the documented structure -/
 theorem docShapeStr_documented (doc : J) (h : DocShapeStr doc = true) : DocShape doc = true := by
@@ -261,201 +290,59 @@ theorem docShapeStr_documented (doc : J) (h : DocShapeStr doc = true) : DocShape
 
 /-! ## reading back -/
 
-/-- **What the decompile command reads from what the compile command printed** (all routine sets, whatever their
-offsets): the same routines, ops and parameters; every op numbered by its 1-based position across all routines. -/
+/-- **What the decompile command reads from what the compile command prints** (all routine sets, whatever their
+offsets): the canonical form — the same routines, ops and parameters, every jump parameter replaced by the 1-based
+position of the op it denotes, every op numbered by its 1-based position across all routines, coroutines named. -/
 theorem cli_roundtrip (s : J) (c : RoutineSet) (hs : settingsShape s = true) (h : Wf c) :
-    ∃ j, buildJson s c = .ok j ∧ readJson j = .ok (renum c) :=
+    ∃ j, buildJson s c = .ok j ∧ readJson j = .ok (canon c) :=
   readJson_buildJson s c hs h
 
 theorem renum_infos_shape (c : RoutineSet) :
     (renum c).infos = c.infos.map normInfo ∧ (renum c).ops.map List.length = c.ops.map List.length :=
   ⟨rfl, renumRoutines_lengths 0 c.ops⟩
 
-/-- **The round trip is exact when the jump parameters are positions**: then every jump parameter of the set the
-decompile command works on denotes the op at the position of the original target. -/
-theorem cli_positional (s : J) (c : RoutineSet) (hs : settingsShape s = true) (h : Wf c) (hp : Positional c) :
-    ∃ j, buildJson s c = .ok j ∧ readJson j = .ok (renum c) ∧ Renumbering c (renum c) := by
+theorem corosRead_getElem? (is : List RoutineInfo) (ns : List (Option String)) (k : Nat) (i : RoutineInfo)
+    (hi : is[k]? = some i) (hc : i.kind = .coroutine) : (corosRead is ns)[k]? = ns[k]? := by
+  induction is generalizing ns k with
+  | nil => simp at hi
+  | cons x xs ih =>
+    cases ns with
+    | nil => simp [corosRead]
+    | cons n ns =>
+      cases k with
+      | zero => simp at hi; subst hi; simp [corosRead, hc]
+      | succ k => simp at hi; simp [corosRead, ih ns k hi]
+
+theorem renum_coros (c : RoutineSet) (k : Nat) (i : RoutineInfo) (hi : c.infos[k]? = some i) (hc : i.kind = .coroutine) :
+    (renum c).coros[k]? = c.coros[k]? := corosRead_getElem? c.infos c.coros k i hi hc
+
+/-- **Each jump parameter the compile command prints equals the 1-based position of its target op counted across all
+routines** (closed sets): the k-th op as printed carries the position of the op its original parameter denotes. -/
+theorem cli_build_positional (c : RoutineSet) (hc : Closed c) (k : Nat) (o : Op) (t : Int)
+    (hk : c.flat[k]? = some o) (hj : jumpOf o = some t) :
+    ∃ o' p, (remap c).flat[k]? = some o' ∧ o'.name = o.name ∧ posOf c.offsets t = some p ∧ jumpOf o' = some p := by
+  obtain ⟨p, hp⟩ := posOf_of_mem _ _ (hc o (List.mem_of_getElem? hk) t hj)
+  refine ⟨remapOp c.offsets o, p, ?_, remapOp_name _ o, hp, ?_⟩
+  · rw [remap_flat, List.getElem?_map, hk]; rfl
+  · rw [jumpOf_remapOp, hj]; simp [hp]
+
+/-- **The round trip is exact** (every closed well-formed routine set): the decompile command accepts what the compile
+command prints and works on a renumbering of the compiler's set — same routine table, same ops and parameters, every jump
+parameter denoting the op at the position of the original target, every coroutine named — whose jump parameters are
+positions. -/
+theorem cli_positional (s : J) (c : RoutineSet) (hs : settingsShape s = true) (h : Wf c) (hc : Closed c) :
+    ∃ j, buildJson s c = .ok j ∧ readJson j = .ok (canon c) ∧ Renumbering c (canon c) ∧ Positional (canon c) := by
   obtain ⟨j, h1, h2⟩ := readJson_buildJson s c hs h
-  refine ⟨j, h1, h2, (renum_infos_shape c).1, (renum_infos_shape c).2, ?_⟩
-  intro k o hk
-  refine ⟨⟨((0 + k + 1 : Nat) : Int), o.name, o.params.map normParam⟩, ?_, rfl, blank_norm _ o, ?_, ?_⟩
-  · rw [renum_flat, renumOps_getElem?, hk]; rfl
-  · rw [jumpOf_norm]
-  · rw [jumpOf_norm, renum_offsets]
-    cases hj : jumpOf o with
-    | none => rfl
-    | some t =>
-      have hm : o ∈ c.flat := List.mem_of_getElem? hk
-      have ht := hp o hm t hj
-      have hb := posOf_bound _ _ _ ht
-      rw [offsets_length] at hb
-      simp only [Option.bind_some, ht]
-      exact posOf_seq_self _ t hb.1 hb.2
-
-/-- … and only then: if the set read back is a renumbering of a closed set, its jump parameters were positions. -/
-theorem cli_positional_only (c : RoutineSet) (hc : Closed c) (hr : Renumbering c (renum c)) : Positional c := by
-  intro o hm t hj
-  obtain ⟨k, hk⟩ := List.getElem?_of_mem hm
-  obtain ⟨o', h1, _, _, _, h5⟩ := hr.ops k o hk
-  rw [renum_flat, renumOps_getElem?, hk] at h1
-  simp only [Option.map_some, Option.some.injEq] at h1
-  subst h1
-  rw [jumpOf_norm, renum_offsets, hj] at h5
-  simp only [Option.bind_some] at h5
-  obtain ⟨p, hp⟩ := posOf_of_mem _ _ (hc o hm t hj)
-  rw [hp] at h5
-  rw [hp, posOf_seq_some _ t p h5]
-
-theorem positional_closed (c : RoutineSet) (h : Positional c) : Closed c :=
-  fun o hm t hj => mem_of_posOf _ _ _ (h o hm t hj)
-
-/-- **exactly**: for a closed set, the decompile command works on a renumbering of it iff the jump parameters are positions -/
-theorem cli_positional_iff (c : RoutineSet) (hc : Closed c) : Renumbering c (renum c) ↔ Positional c :=
-  ⟨cli_positional_only c hc, fun hp => by
-    refine ⟨(renum_infos_shape c).1, (renum_infos_shape c).2, ?_⟩
-    intro k o hk
-    refine ⟨⟨((0 + k + 1 : Nat) : Int), o.name, o.params.map normParam⟩, ?_, rfl, blank_norm _ o, ?_, ?_⟩
-    · rw [renum_flat, renumOps_getElem?, hk]; rfl
-    · rw [jumpOf_norm]
-    · rw [jumpOf_norm, renum_offsets]
-      cases hj : jumpOf o with
-      | none => rfl
-      | some t =>
-        have ht := hp o (List.mem_of_getElem? hk) t hj
-        have hb := posOf_bound _ _ _ ht
-        rw [offsets_length] at hb
-        simp only [Option.bind_some, ht]
-        exact posOf_seq_self _ t hb.1 hb.2⟩
-
-/-! ## the defect: internal offsets with gaps -/
-
-/-- the real compiler's output for `def 0 { if ($X == 1) { a(); } b(); }`: the redundant jump over the (absent) else
-part had offset 4 and was dropped -/
-def gapSet : RoutineSet :=
-  ⟨[⟨.generic, 0, none⟩],
-   [[⟨1, "Branch", [.const "$X", .int 1, .int 3]⟩, ⟨2, "Jump", [.int 5]⟩, ⟨3, "a", []⟩, ⟨5, "b", []⟩]],
-   [none]⟩
-
-def okSettings : J :=
-  .obj [("performance_progress_list_var_name", .str "$PERFORMANCE_PROGRESS_LIST"),
-        ("dungeon_mode_constants", .obj [("open", .str "DMODE_OPEN"), ("closed", .str "DMODE_CLOSE"),
-          ("request", .str "DMODE_REQUEST"), ("open_request", .str "DMODE_OPEN_AND_REQUEST")])]
-
-/-- The compile command prints the internal offset 5 for the jump to `b()`, which is the 4th op; the decompile command
-numbers the ops 1..4, so the jump it reads denotes no op at all ("A jump operation went past EOF"), although the set is
-closed and well-formed. -/
-theorem cli_gap_counterexample :
-    Closed gapSet ∧ Wf gapSet ∧ ¬ Positional gapSet ∧
-    (buildJson okSettings gapSet).bind readJson = .ok (renum gapSet) ∧
-    (renum gapSet).ops = [[⟨1, "Branch", [.const "$X", .int 1, .int 3]⟩, ⟨2, "Jump", [.int 5]⟩, ⟨3, "a", []⟩, ⟨4, "b", []⟩]] ∧
-    posOf gapSet.offsets 5 = some 4 ∧ posOf (renum gapSet).offsets 5 = none ∧
-    ¬ Renumbering gapSet (renum gapSet) := by
-  have hc : Closed gapSet := by
-    intro o ho t ht
-    have : closedB gapSet = true := by decide +kernel
-    simp only [closedB, List.all_eq_true] at this
-    have := this o ho
-    rw [ht] at this
-    simpa using this
-  have hnp : ¬ Positional gapSet := by
-    intro h
-    have := h ⟨2, "Jump", [.int 5]⟩ (by decide +kernel) 5 (by decide +kernel)
-    revert this
-    decide +kernel
-  refine ⟨hc, ?_, hnp, by decide +kernel, by decide +kernel, by decide +kernel, by decide +kernel, ?_⟩
-  · simp only [Wf, gapSet, AllOk, RoutineOk, OpOk, ParamOk]
-    refine ⟨⟨by decide, by decide⟩, ?_, trivial⟩
-    intro x hx p hp
-    simp only [List.mem_cons, List.not_mem_nil, or_false] at hx
-    rcases hx with rfl | rfl | rfl | rfl <;> simp at hp <;> rcases hp with rfl | rfl | rfl <;> trivial
-  · exact fun h => hnp (cli_positional_only gapSet hc h)
-
-/-- a second shape of the same defect: the jump lands on a *different* op (accepted by the decompile command, wrong
-program).  Real compiler output for `def 0 { jump @l; @l; jump @m; a(); @m; b(); c(); }`. -/
-def gapSet2 : RoutineSet :=
-  ⟨[⟨.generic, 0, none⟩], [[⟨2, "Jump", [.int 4]⟩, ⟨3, "a", []⟩, ⟨4, "b", []⟩, ⟨5, "c", []⟩]], [none]⟩
-
-theorem cli_gap_wrong_op_counterexample :
-    (buildJson okSettings gapSet2).bind readJson = .ok (renum gapSet2) ∧
-    -- in the compiler's output the jump goes to the 3rd op, `b`
-    posOf gapSet2.offsets 4 = some 3 ∧ gapSet2.flat[2]? = some ⟨4, "b", []⟩ ∧
-    -- in what the decompile command reads it goes to the 4th op, `c`
-    posOf (renum gapSet2).offsets 4 = some 4 ∧ (renum gapSet2).flat[3]? = some ⟨4, "c", []⟩ := by
-  decide +kernel
-
-/-- a third shape: no op was dropped, but the jump over the default part of a switch is numbered after the bodies and
-stands before them (offsets 1, 2, 5, 3, 4, 6).  Real compiler output for
-`def 0 { switch ($X) { case 1: a(); default: b(); } c(); }`. -/
-def oooSet : RoutineSet :=
-  ⟨[⟨.generic, 0, none⟩],
-   [[⟨1, "Switch", [.const "$X"]⟩, ⟨2, "Case", [.int 1, .int 3]⟩, ⟨5, "Jump", [.int 4]⟩, ⟨3, "a", []⟩, ⟨4, "b", []⟩,
-     ⟨6, "c", []⟩]], [none]⟩
-
-theorem cli_out_of_order_counterexample :
-    closedB oooSet = true ∧ positionalB oooSet = false ∧
-    (buildJson okSettings oooSet).bind readJson = .ok (renum oooSet) ∧
-    -- compiled: the jump (taken when no case matches) goes to the 5th op, `b`
-    posOf oooSet.offsets 4 = some 5 ∧ oooSet.flat[4]? = some ⟨4, "b", []⟩ ∧
-    -- read back: it goes to the 4th op, `a`
-    posOf (renum oooSet).offsets 4 = some 4 ∧ (renum oooSet).flat[3]? = some ⟨4, "a", []⟩ ∧
-    -- repaired: Case → 4 (`a`), Jump → 5 (`b`)
-    (buildJsonFixed okSettings oooSet).bind readJson =
-      .ok ⟨[⟨.generic, -1, none⟩],
-        [[⟨1, "Switch", [.const "$X"]⟩, ⟨2, "Case", [.int 1, .int 4]⟩, ⟨3, "Jump", [.int 5]⟩, ⟨4, "a", []⟩, ⟨5, "b", []⟩,
-          ⟨6, "c", []⟩]], [none]⟩ := by
-  decide +kernel
-
-/-! ## the proposed repair -/
-
-theorem remap_wf (c : RoutineSet) (h : Wf c) : Wf (remap c) := by
-  unfold Wf at *
-  have key : ∀ (offs : List Int) (is : List RoutineInfo) (ns : List (Option String)) (os : List (List Op)),
-      AllOk is ns os → AllOk is ns (os.map fun r => r.map (remapOp offs)) := by
-    intro offs is
-    induction is with
-    | nil => intro ns os h; cases ns <;> cases os <;> simp [AllOk] at h ⊢
-    | cons i is ih =>
-      intro ns os h
-      cases ns with
-      | nil => cases os <;> simp [AllOk] at h
-      | cons nm ns =>
-        cases os with
-        | nil => simp [AllOk] at h
-        | cons o os =>
-          obtain ⟨h1, h2, h3⟩ := h
-          refine ⟨h1, ?_, ih ns os h3⟩
-          intro x hx
-          simp only [List.mem_map] at hx
-          obtain ⟨y, hy, rfl⟩ := hx
-          have hy2 := h2 y hy
-          unfold remapOp
-          split
-          · exact hy2
-          · split
-            · split
-              · intro p hp
-                simp only at hp
-                rcases List.mem_or_eq_of_mem_set hp with hp | rfl
-                · exact hy2 p hp
-                · trivial
-              · exact hy2
-            · exact hy2
-  exact key c.offsets c.infos c.coros c.ops h
-
-/-- **The repaired compile command** (`buildJsonFixed`: each jump parameter is mapped from the internal offset to the
-1-based position of the op with that offset): for EVERY closed routine set the decompile command accepts the output and
-works on a renumbering of the compiler's set whose jump parameters are positions. -/
-theorem cli_build_positional_fixed (s : J) (c : RoutineSet) (hs : settingsShape s = true) (h : Wf c) (hc : Closed c) :
-    ∃ j, buildJsonFixed s c = .ok j ∧ readJson j = .ok (canon c) ∧ Renumbering c (canon c) ∧ Positional (canon c) := by
-  obtain ⟨j, h1, h2⟩ := readJson_buildJson s (remap c) hs (remap_wf c h)
   have hflat : (canon c).flat = renumOps 0 (c.flat.map (remapOp c.offsets)) := by
     unfold canon; rw [renum_flat, remap_flat]
   have hoffs : (canon c).offsets = (List.range' 1 c.flat.length).map fun k : Nat => (k : Int) := by
     unfold canon; rw [renum_offsets, remap_flat]; simp
-  refine ⟨j, h1, h2, ⟨rfl, ?_, ?_⟩, ?_⟩
+  refine ⟨j, h1, h2, ⟨rfl, ?_, ?_, ?_⟩, ?_⟩
   · unfold canon
     rw [(renum_infos_shape (remap c)).2]
     simp [remap]
+  · intro k i hi hk
+    exact renum_coros (remap c) k i hi hk
   · intro k o hk
     refine ⟨⟨((0 + k + 1 : Nat) : Int), (remapOp c.offsets o).name, (remapOp c.offsets o).params.map normParam⟩,
       ?_, remapOp_name _ o, ?_, ?_, ?_⟩
@@ -492,8 +379,8 @@ theorem cli_build_positional_fixed (s : J) (c : RoutineSet) (hs : settingsShape 
         rw [hoffs]
         exact posOf_seq_self _ p hb.1 hb.2
 
-/-- the repair changes nothing on sets that already are positional -/
-theorem cli_fixed_conservative (s : J) (c : RoutineSet) (hp : Positional c) : buildJsonFixed s c = buildJson s c := by
+/-- the position table changes nothing where the jump parameters already are positions -/
+theorem cli_conservative (s : J) (c : RoutineSet) (hp : Positional c) : buildJson s c = buildJsonRaw s c := by
   have : remap c = c := by
     obtain ⟨is, os, ns⟩ := c
     unfold remap
@@ -508,85 +395,196 @@ theorem cli_fixed_conservative (s : J) (c : RoutineSet) (hp : Positional c) : bu
     apply mid
     intro o ho
     exact remapOp_id _ o (hp o (by simp only [RoutineSet.flat, List.mem_flatten]; exact ⟨r, hr, ho⟩))
-  unfold buildJsonFixed
+  unfold buildJson
   rw [this]
 
-/-- on the two witnesses of the defect the repaired output reads back with the jump on the right op -/
-theorem cli_fixed_on_witnesses :
-    (buildJsonFixed okSettings gapSet).bind readJson =
+/-- every COROUTINE routine finds its name in the decompiler's table (no "Unknown coroutine") -/
+theorem cli_coroutines_named (c : RoutineSet) (h : Wf c) : headersOk (canon c) = true := by
+  have key : ∀ (is : List RoutineInfo) (ns : List (Option String)) (os : List (List Op)), AllOk is ns os →
+      ((is.map normInfo).zip (corosRead is ns)).all (fun p => p.1.kind != .coroutine || p.2.isSome) = true := by
+    intro is
+    induction is with
+    | nil => intro ns os _; rfl
+    | cons i is ih =>
+      intro ns os h
+      cases ns with
+      | nil => cases os <;> simp [AllOk] at h
+      | cons nm ns =>
+        cases os with
+        | nil => simp [AllOk] at h
+        | cons o os =>
+          obtain ⟨h1, _, h3⟩ := h
+          have hk : (normInfo i).kind = i.kind := by
+            obtain ⟨k, l, nn⟩ := i
+            cases k <;> simp [normInfo] <;> split <;> rfl
+          simp only [List.map_cons, corosRead, List.zip_cons_cons, List.all_cons, Bool.and_eq_true]
+          refine ⟨?_, ih ns os h3⟩
+          rw [hk]
+          by_cases hc : i.kind = .coroutine
+          · have := h1.2 hc
+            simp [hc, this]
+          · simp [hc]
+  exact key (remap c).infos (remap c).coros (remap c).ops (remap_wf c h)
+
+/-! ## why the position table is needed: printing the offsets as they are -/
+
+/-- If the ops are printed as they are (`buildJsonRaw`, the pinned behaviour as far as jumps are concerned) and the jump
+parameters are positions, the set read back is a renumbering … -/
+theorem cli_raw_positional (s : J) (c : RoutineSet) (hs : settingsShape s = true) (h : Wf c) (hp : Positional c) :
+    ∃ j, buildJsonRaw s c = .ok j ∧ readJson j = .ok (renum c) ∧ Renumbering c (renum c) := by
+  obtain ⟨j, h1, h2⟩ := readJson_buildJsonRaw s c hs h
+  refine ⟨j, h1, h2, (renum_infos_shape c).1, (renum_infos_shape c).2, renum_coros c, ?_⟩
+  intro k o hk
+  refine ⟨⟨((0 + k + 1 : Nat) : Int), o.name, o.params.map normParam⟩, ?_, rfl, blank_norm _ o, ?_, ?_⟩
+  · rw [renum_flat, renumOps_getElem?, hk]; rfl
+  · rw [jumpOf_norm]
+  · rw [jumpOf_norm, renum_offsets]
+    cases hj : jumpOf o with
+    | none => rfl
+    | some t =>
+      have hm : o ∈ c.flat := List.mem_of_getElem? hk
+      have ht := hp o hm t hj
+      have hb := posOf_bound _ _ _ ht
+      rw [offsets_length] at hb
+      simp only [Option.bind_some, ht]
+      exact posOf_seq_self _ t hb.1 hb.2
+
+/-- … and only then: if the set read back is a renumbering of a closed set, its jump parameters were positions. -/
+theorem cli_raw_positional_only (c : RoutineSet) (hc : Closed c) (hr : Renumbering c (renum c)) : Positional c := by
+  intro o hm t hj
+  obtain ⟨k, hk⟩ := List.getElem?_of_mem hm
+  obtain ⟨o', h1, _, _, _, h5⟩ := hr.ops k o hk
+  rw [renum_flat, renumOps_getElem?, hk] at h1
+  simp only [Option.map_some, Option.some.injEq] at h1
+  subst h1
+  rw [jumpOf_norm, renum_offsets, hj] at h5
+  simp only [Option.bind_some] at h5
+  obtain ⟨p, hp⟩ := posOf_of_mem _ _ (hc o hm t hj)
+  rw [hp] at h5
+  rw [hp, posOf_seq_some _ t p h5]
+
+theorem positional_closed (c : RoutineSet) (h : Positional c) : Closed c :=
+  fun o hm t hj => mem_of_posOf _ _ _ (h o hm t hj)
+
+/-- **exactly**: without the position table the round trip of a closed set is a renumbering iff the jump parameters
+already are positions — the compiler's offsets are not (gaps after dropped jumps, out-of-order ops: witnesses below) -/
+theorem cli_raw_positional_iff (s : J) (c : RoutineSet) (hs : settingsShape s = true) (h : Wf c) (hc : Closed c) :
+    Renumbering c (renum c) ↔ Positional c :=
+  ⟨cli_raw_positional_only c hc, fun hp => (cli_raw_positional s c hs h hp).choose_spec.2.2⟩
+
+/-! ## the repaired defects: witnesses against the OLD behaviour (`…Pinned`, ESV/Cli/Pinned.lean) -/
+
+/-- the real compiler's output for `def 0 { if ($X == 1) { a(); } b(); }`: the redundant jump over the (absent) else
+part had offset 4 and was dropped -/
+def gapSet : RoutineSet :=
+  ⟨[⟨.generic, 0, none⟩],
+   [[⟨1, "Branch", [.const "$X", .int 1, .int 3]⟩, ⟨2, "Jump", [.int 5]⟩, ⟨3, "a", []⟩, ⟨5, "b", []⟩]],
+   [none]⟩
+
+def okSettings : J :=
+  .obj [("performance_progress_list_var_name", .str "$PERFORMANCE_PROGRESS_LIST"),
+        ("dungeon_mode_constants", .obj [("open", .str "DMODE_OPEN"), ("closed", .str "DMODE_CLOSE"),
+          ("request", .str "DMODE_REQUEST"), ("open_request", .str "DMODE_OPEN_AND_REQUEST")])]
+
+theorem gapSet_closed : Closed gapSet := by
+  intro o ho t ht
+  have : closedB gapSet = true := by decide +kernel
+  simp only [closedB, List.all_eq_true] at this
+  have := this o ho
+  rw [ht] at this
+  simpa using this
+
+theorem gapSet_wf : Wf gapSet := by
+  simp only [Wf, gapSet, AllOk, RoutineOk, OpOk, ParamOk]
+  refine ⟨⟨by decide, by decide⟩, ?_, trivial⟩
+  intro x hx p hp
+  simp only [List.mem_cons, List.not_mem_nil, or_false] at hx
+  rcases hx with rfl | rfl | rfl | rfl <;> simp at hp <;> rcases hp with rfl | rfl | rfl <;> trivial
+
+/-- REPAIRED (e79af4f).  The pinned compile command printed the internal offset 5 for the jump to `b()`, which is the 4th
+op; the decompile command numbers the ops 1..4, so the jump it read denoted no op at all ("A jump operation went past
+EOF"), although the set is closed and well-formed.  The current command prints 4. -/
+theorem cli_gap_counterexample :
+    Closed gapSet ∧ Wf gapSet ∧ ¬ Positional gapSet ∧
+    (buildJsonPinned okSettings gapSet).bind readJsonPinned =
       .ok ⟨[⟨.generic, -1, none⟩],
-        [[⟨1, "Branch", [.const "$X", .int 1, .int 3]⟩, ⟨2, "Jump", [.int 4]⟩, ⟨3, "a", []⟩, ⟨4, "b", []⟩]], [none]⟩ ∧
-    (buildJsonFixed okSettings gapSet2).bind readJson =
+        [[⟨1, "Branch", [.const "$X", .int 1, .int 3]⟩, ⟨2, "Jump", [.int 5]⟩, ⟨3, "a", []⟩, ⟨4, "b", []⟩]], [none]⟩ ∧
+    posOf gapSet.offsets 5 = some 4 ∧ posOf [1, 2, 3, 4] 5 = none ∧
+    ¬ Renumbering gapSet (renum gapSet) ∧
+    (buildJson okSettings gapSet).bind readJson =
+      .ok ⟨[⟨.generic, -1, none⟩],
+        [[⟨1, "Branch", [.const "$X", .int 1, .int 3]⟩, ⟨2, "Jump", [.int 4]⟩, ⟨3, "a", []⟩, ⟨4, "b", []⟩]], [none]⟩ := by
+  have hnp : ¬ Positional gapSet := by
+    intro h
+    have := h ⟨2, "Jump", [.int 5]⟩ (by decide +kernel) 5 (by decide +kernel)
+    revert this
+    decide +kernel
+  exact ⟨gapSet_closed, gapSet_wf, hnp, by decide +kernel, by decide +kernel, by decide +kernel,
+    fun h => hnp (cli_raw_positional_only gapSet gapSet_closed h), by decide +kernel⟩
+
+/-- a second shape of the same defect: the jump landed on a *different* op (accepted by the decompile command, wrong
+program).  Real compiler output for `def 0 { jump @l; @l; jump @m; a(); @m; b(); c(); }`. -/
+def gapSet2 : RoutineSet :=
+  ⟨[⟨.generic, 0, none⟩], [[⟨2, "Jump", [.int 4]⟩, ⟨3, "a", []⟩, ⟨4, "b", []⟩, ⟨5, "c", []⟩]], [none]⟩
+
+theorem cli_gap_wrong_op_counterexample :
+    -- pinned: `Jump [4]` is printed and read; in the compiler's output the jump goes to the 3rd op, `b` …
+    (buildJsonPinned okSettings gapSet2).bind readJsonPinned =
+      .ok ⟨[⟨.generic, -1, none⟩], [[⟨1, "Jump", [.int 4]⟩, ⟨2, "a", []⟩, ⟨3, "b", []⟩, ⟨4, "c", []⟩]], [none]⟩ ∧
+    posOf gapSet2.offsets 4 = some 3 ∧ gapSet2.flat[2]? = some ⟨4, "b", []⟩ ∧
+    -- … in what the decompile command read it went to the 4th op, `c`
+    posOf [1, 2, 3, 4] 4 = some 4 ∧
+    -- repaired: `Jump [3]`
+    (buildJson okSettings gapSet2).bind readJson =
       .ok ⟨[⟨.generic, -1, none⟩], [[⟨1, "Jump", [.int 3]⟩, ⟨2, "a", []⟩, ⟨3, "b", []⟩, ⟨4, "c", []⟩]], [none]⟩ := by
   decide +kernel
 
-/-! ## coroutines -/
+/-- a third shape: no op was dropped, but the jump over the default part of a switch is numbered after the bodies and
+stands before them (offsets 1, 2, 5, 3, 4, 6).  Real compiler output for
+`def 0 { switch ($X) { case 1: a(); default: b(); } c(); }`. -/
+def oooSet : RoutineSet :=
+  ⟨[⟨.generic, 0, none⟩],
+   [[⟨1, "Switch", [.const "$X"]⟩, ⟨2, "Case", [.int 1, .int 3]⟩, ⟨5, "Jump", [.int 4]⟩, ⟨3, "a", []⟩, ⟨4, "b", []⟩,
+     ⟨6, "c", []⟩]], [none]⟩
+
+theorem cli_out_of_order_counterexample :
+    closedB oooSet = true ∧ positionalB oooSet = false ∧
+    (buildJsonPinned okSettings oooSet).bind readJsonPinned =
+      .ok ⟨[⟨.generic, -1, none⟩],
+        [[⟨1, "Switch", [.const "$X"]⟩, ⟨2, "Case", [.int 1, .int 3]⟩, ⟨3, "Jump", [.int 4]⟩, ⟨4, "a", []⟩, ⟨5, "b", []⟩,
+          ⟨6, "c", []⟩]], [none]⟩ ∧
+    -- compiled: the jump (taken when no case matches) goes to the 5th op, `b`; read back by the pinned pair: the 4th, `a`
+    posOf oooSet.offsets 4 = some 5 ∧ oooSet.flat[4]? = some ⟨4, "b", []⟩ ∧ posOf [1, 2, 3, 4, 5, 6] 4 = some 4 ∧
+    -- repaired: Case → 4 (`a`), Jump → 5 (`b`)
+    (buildJson okSettings oooSet).bind readJson =
+      .ok ⟨[⟨.generic, -1, none⟩],
+        [[⟨1, "Switch", [.const "$X"]⟩, ⟨2, "Case", [.int 1, .int 4]⟩, ⟨3, "Jump", [.int 5]⟩, ⟨4, "a", []⟩, ⟨5, "b", []⟩,
+          ⟨6, "c", []⟩]], [none]⟩ := by
+  decide +kernel
 
 /-- the real compiler's output for `coro FOO { a(); }` -/
 def coroSet : RoutineSet := ⟨[⟨.coroutine, 0, none⟩], [[⟨1, "a", []⟩]], [some "FOO"]⟩
 
-/-- The decompile command registers every coroutine under id −1 (`SsbCoroutine(-1, name)`): routine 0 has no name in
-the decompiler's id → name table, so the documented COROUTINE routine is refused ("Unknown coroutine") — although the
-document has the documented structure and the name was read. -/
+/-- REPAIRED (463a62a).  The pinned decompile command registered every coroutine under id −1 (`SsbCoroutine(-1, name)`):
+routine 0 had no name in the decompiler's id → name table, so every documented COROUTINE routine was refused ("Unknown
+coroutine").  The current command registers it under the routine index (general statement: `cli_coroutines_named`). -/
 theorem cli_coroutine_counterexample :
-    ∃ j, buildJson okSettings coroSet = .ok j ∧ DocShape j = true ∧
-      (readRaw j).map (fun rs => rs.map (·.coro)) = .ok [(-1, "FOO")] ∧
-      readJson j = .ok ⟨[⟨.coroutine, -1, none⟩], [[⟨1, "a", []⟩]], [none]⟩ ∧
-      headersOk coroSet = true ∧ (readJson j).map headersOk = .ok false :=
-  ⟨_, rfl, by decide +kernel, by decide +kernel, by decide +kernel, by decide +kernel, by decide +kernel⟩
+    (buildJsonPinned okSettings coroSet).bind readJsonPinned = .ok ⟨[⟨.coroutine, -1, none⟩], [[⟨1, "a", []⟩]], [none]⟩ ∧
+    ((buildJsonPinned okSettings coroSet).bind readJsonPinned).map headersOk = .ok false ∧
+    (buildJsonPinned okSettings coroSet).map DocShape = .ok true ∧
+    (buildJson okSettings coroSet).bind readJson = .ok ⟨[⟨.coroutine, -1, none⟩], [[⟨1, "a", []⟩]], [some "FOO"]⟩ ∧
+    ((buildJson okSettings coroSet).bind readJson).map headersOk = .ok true := by
+  decide +kernel
 
-/-- PROPOSED repair of read_routines: register the coroutine under its routine index.  With that table every routine
-keeps its name. -/
-def coroTableFixed (rs : List RRoutine) : List (Option String) :=
-  rs.map fun r => if r.info.kind = .coroutine then some r.coro.2 else none
-
-theorem cli_coroutine_fixed (n : Nat) (is : List RoutineInfo) (ns : List (Option String)) (os : List (List Op))
-    (h : AllOk is ns os) :
-    (List.zip (is.map (·.kind)) (coroTableFixed (readBack n is ns os))).all
-      (fun p => p.1 != .coroutine || p.2.isSome) = true ∧
-    ∀ (k : Nat) (i : RoutineInfo), is[k]? = some i → i.kind = .coroutine →
-      (coroTableFixed (readBack n is ns os))[k]? = some (ns[k]?.join) := by
-  induction is generalizing n ns os with
-  | nil => cases ns <;> cases os <;> simp [AllOk] at h; simp [readBack, coroTableFixed]
-  | cons i is ih =>
-    cases ns with
-    | nil => cases os <;> simp [AllOk] at h
-    | cons nm ns =>
-      cases os with
-      | nil => simp [AllOk] at h
-      | cons o os =>
-        obtain ⟨h1, h2, h3⟩ := h
-        obtain ⟨a, b⟩ := ih (n + o.length) ns os h3
-        have hk : (normInfo i).kind = i.kind := by
-          obtain ⟨k, l, nn⟩ := i
-          cases k <;> simp [normInfo] <;> split <;> (try split) <;> rfl
-        constructor
-        · simp only [readBack, coroTableFixed, List.map_cons, List.zip_cons_cons, List.all_cons, Bool.and_eq_true]
-          refine ⟨?_, a⟩
-          rw [hk]
-          by_cases hc : i.kind = .coroutine <;> simp [hc]
-        · intro k i' hk' hc
-          cases k with
-          | zero =>
-            simp at hk'; subst hk'
-            have := h1.2 hc
-            cases nm with
-            | none => simp at this
-            | some x => simp [readBack, coroTableFixed, hk, hc, coroEntry]
-          | succ k =>
-            simp at hk'
-            have := b k i' hk' hc
-            simpa [readBack, coroTableFixed] using this
-
-/-! ## documented position marks with integer coordinates -/
-
-/-- The documentation's own example of a position mark, `{"name": "Name of the mark", "x": 10, "y": 20}`, has the
-documented structure and is refused by the decompile command (`'int' object has no attribute 'split'`). -/
+/-- REPAIRED (61b451d).  The documentation's own example of a position mark, `{"name": "Name of the mark", "x": 10,
+"y": 20}`, has the documented structure and was refused by the pinned decompile command (`'int' object has no attribute
+'split'`); the current one reads it (general statement: `cli_accepts_documented`). -/
 theorem cli_posmark_int_counterexample :
     let doc : J := .obj [("settings", okSettings), ("routines", .arr [.obj [("type", .str "GENERIC"), ("ops", .arr [
       .obj [("opcode", .str "a"), ("params", .arr [.obj [("type", .str "POSITION_MARK"),
         ("value", .obj [("name", .str "Name of the mark"), ("x", .int 10), ("y", .int 20)])]])]])]])]
-    DocShape doc = true ∧ readJson doc = .error .attributeError := by
+    DocShape doc = true ∧ readJsonPinned doc = .error .attributeError ∧
+    readJson doc = .ok ⟨[⟨.generic, -1, none⟩], [[⟨1, "a", [.posMark "Name of the mark" 0 0 10 20]⟩]], [none]⟩ := by
   decide +kernel
 
 /-! ## non-vacuity -/
@@ -607,6 +605,7 @@ example : positionalB exSet = true ∧ closedB exSet = true := by decide +kernel
 example : (buildJson okSettings exSet).map DocShape = .ok true := by decide +kernel
 example : (buildJson okSettings exSet).map DocShapeStr = .ok true := by decide +kernel
 example : (buildJson okSettings exSet).bind readJson = .ok (renum exSet) := by decide +kernel
+example : canon exSet = renum exSet ∧ (renum exSet).coros = [none, none, none, some "CORO_A"] := by decide +kernel
 example : (renum exSet).ops =
     [[⟨1, "Jump", [.int 3]⟩,
       ⟨2, "foo", [.int 1, .const "C", .constString "hi", .fixed "1.25", .langString [("english", "x"), ("german", "y")],
@@ -614,7 +613,7 @@ example : (renum exSet).ops =
      [],
      [⟨3, "Branch", [.int 1, .int 2, .int 1]⟩, ⟨4, "Return", []⟩],
      [⟨5, "Call", [.int 5]⟩, ⟨6, "lives", [.int 3]⟩]] := by decide +kernel
-/-- the same flow with the compiler's gappy offsets: not positional, but the repaired command gives the positional form -/
+/-- the same flow with the compiler's gappy offsets: not positional; the compile command prints the positional form -/
 def exGappy : RoutineSet :=
   { exSet with ops := [[⟨10, "Jump", [.int 30]⟩,
                         ⟨12, "foo", [.int 1, .const "C", .constString "hi", .fixed "1.25",
@@ -622,6 +621,6 @@ def exGappy : RoutineSet :=
                        [], [⟨30, "Branch", [.int 1, .int 2, .int 10]⟩, ⟨33, "Return", []⟩],
                        [⟨40, "Call", [.int 40]⟩, ⟨41, "lives", [.int 3]⟩]] }
 example : positionalB exGappy = false ∧ closedB exGappy = true := by decide +kernel
-example : (buildJsonFixed okSettings exGappy).bind readJson = .ok (renum exSet) := by decide +kernel
+example : (buildJson okSettings exGappy).bind readJson = .ok (renum exSet) := by decide +kernel
 
 end ESV.C15
